@@ -1,5 +1,155 @@
-(* placeholder until the proofs are in *)
+(* Props/C01.v -- HTTP/1 forwarding is framing-consistent: no request or response desync.
+   Statements only; each is closed by [exact] of a lemma proved in Proofs/Http1*.v.
+   The models are Model/Http1Msg.v, Model/Http1Conn.v (hand models of read.py / assemble.py / _http1.py send paths),
+   Gen/BodySize.v (validate.py and expected_http_body_size, regenerated from the source on every run) and the
+   independent reference parser Model/Rfc9112.v.  The theorems describe the tree with
+   fixes/C01-reject-cr-lf-nul-in-header-values.diff and fixes/C01-no-last-chunk-after-bodiless-response.diff applied. *)
 From Coq Require Import List Bool NArith ZArith.
-From MV Require Import Base.Bytes Model.Http1Msg Model.BodySizePrelude Gen.BodySize Model.Http1Conn Model.Rfc9112.
-Theorem C01_placeholder : True. Proof. exact I. Qed.
-Print Assumptions C01_placeholder.
+From MV Require Import Base.Bytes Model.Http1Msg Model.BodySizePrelude Gen.BodySize Model.Http1Conn Model.Rfc9112
+  Proofs.Http1Regex Proofs.Http1Validate Proofs.Http1TeNorm Proofs.Http1Framing Proofs.Http1FramingMain
+  Proofs.Http1Lines Proofs.Http1Chunks Proofs.Http1Roundtrip Proofs.Http1ParseInv Proofs.Http1EndToEnd.
+Import ListNotations.
+
+(* (a) framing_agree, requests: for every request head accepted by the generated validate_headers, the generated
+   expected_http_body_size succeeds and names the same framing as RFC 9112 6.3 applied by the reference parser. *)
+Theorem C01_framing_agree_request : forall r,
+  validate_headers (MReq r) = Ok tt ->
+  exists sz bl, expected_http_body_size r None = Ok sz
+             /\ request_body_length (rq_version r) (rq_headers r) = Some bl /\ size_agrees sz bl.
+Proof. exact framing_agree_request. Qed.
+Print Assumptions C01_framing_agree_request.
+
+(* (a) responses, in the context of the request method.  Guard: the method is HEAD / CONNECT exactly when its
+   upper-casing is (mitmproxy upper-cases, RFC 9110 methods are case-sensitive: see C01_head_case_refuted). *)
+Theorem C01_framing_agree_response : forall q r st,
+  validate_headers (MResp r) = Ok tt -> rs_status r = Z.of_N st -> method_case_ok (rq_method q) ->
+  exists sz bl, expected_http_body_size q (Some r) = Ok sz
+             /\ response_body_length (rq_method q) st (rs_version r) (rs_headers r) = Some bl /\ size_agrees sz bl.
+Proof. exact framing_agree_response. Qed.
+Print Assumptions C01_framing_agree_response.
+
+(* a lower-case head request: mitmproxy treats the response as bodiless, the reference (and the server) do not *)
+Theorem C01_head_case_refuted : exists q r sz bl,
+  validate_headers (MResp r) = Ok tt /\ expected_http_body_size q (Some r) = Ok sz
+  /\ response_body_length (rq_method q) 200 (rs_version r) (rs_headers r) = Some bl /\ ~ size_agrees sz bl.
+Proof. exact head_case_refuted. Qed.
+Print Assumptions C01_head_case_refuted.
+
+(* (b) head_roundtrip: under every recipient option the reference parser reads an assembled request head back as
+   method, target, version and fields, leaving exactly what follows. *)
+Theorem C01_head_roundtrip_request : forall o r rest, Inv_req r ->
+  parse_request_head o (assemble_request_head r ++ rest)
+  = POk (rq_method r, req_target r, rq_version r, rq_headers r, rest).
+Proof. exact head_roundtrip_request. Qed.
+Print Assumptions C01_head_roundtrip_request.
+
+(* parse_establishes_inv (field section): what _read_headers produces and validate_headers accepts satisfies the
+   field invariant of the round trip (names free of LF is what the line extraction guarantees). *)
+Theorem C01_parse_establishes_inv_fields : forall lines hs m,
+  _read_headers lines = Ok hs -> msg_headers m = hs -> validate_headers m = Ok tt ->
+  Forall (fun f => existsb (byte_eqb LF) (fst f) = false) hs ->
+  Forall field_inv hs.
+Proof. exact parse_establishes_inv_fields. Qed.
+Print Assumptions C01_parse_establishes_inv_fields.
+
+(* (c) body_reframe: for every list of non-empty chunks the reference de-chunker reads the emitted chunk stream
+   back as the concatenation (no trailers, nothing more consumed); and the Content-Length case. *)
+Theorem C01_body_reframe_chunked : forall o cs rest,
+  Forall (fun c => c <> []) cs ->
+  read_body o BLChunked (concat (map emit_chunk cs) ++ LAST_CHUNK ++ rest) = POk (concat cs, [], rest).
+Proof. exact body_reframe_read_body. Qed.
+Print Assumptions C01_body_reframe_chunked.
+
+Theorem C01_body_reframe_length : forall o body rest,
+  read_body o (BLLen (N.of_nat (length body))) (body ++ rest) = POk (body, [], rest).
+Proof. exact body_reframe_length. Qed.
+Print Assumptions C01_body_reframe_length.
+
+(* re.sub(r"[\t ]*,[\t ]*", ",", s) keeps the comma-separated, OWS-trimmed elements of every string *)
+Theorem C01_te_normalisation : forall s,
+  map trim_ows (split_comma s []) = map trim_ows (split_comma (norm s) []).
+Proof. exact norm_same_elements. Qed.
+Print Assumptions C01_te_normalisation.
+
+(* (d) ambiguous framing is rejected by the generated validate_headers *)
+Theorem C01_rejects_te_and_cl : forall m,
+  get_all TRANSFER_ENCODING (msg_headers m) <> [] -> get_all CONTENT_LENGTH (msg_headers m) <> [] ->
+  validate_headers m <> Ok tt.
+Proof. exact rejects_te_and_cl. Qed.
+Print Assumptions C01_rejects_te_and_cl.
+
+Theorem C01_rejects_duplicate_cl : forall m a b rest,
+  get_all CONTENT_LENGTH (msg_headers m) = a :: b :: rest -> validate_headers m <> Ok tt.
+Proof. exact rejects_duplicate_cl. Qed.
+Print Assumptions C01_rejects_duplicate_cl.
+
+Theorem C01_rejects_duplicate_te : forall m a b rest,
+  get_all TRANSFER_ENCODING (msg_headers m) = a :: b :: rest -> validate_headers m <> Ok tt.
+Proof. exact rejects_duplicate_te. Qed.
+Print Assumptions C01_rejects_duplicate_te.
+
+Theorem C01_rejects_malformed_cl : forall m v,
+  get_all CONTENT_LENGTH (msg_headers m) = [v] -> canon_dec v = false -> validate_headers m <> Ok tt.
+Proof. exact rejects_malformed_cl. Qed.
+Print Assumptions C01_rejects_malformed_cl.
+
+Theorem C01_rejects_unknown_te : forall m v,
+  get_all TRANSFER_ENCODING (msg_headers m) = [v] -> in_set (norm (lower v)) SET = false -> validate_headers m <> Ok tt.
+Proof. exact rejects_unknown_te. Qed.
+Print Assumptions C01_rejects_unknown_te.
+
+Theorem C01_rejects_te_before_http11 : forall m,
+  get_all TRANSFER_ENCODING (msg_headers m) <> [] -> msg_version m <> HTTP11 -> validate_headers m <> Ok tt.
+Proof. exact rejects_te_before_http11. Qed.
+Print Assumptions C01_rejects_te_before_http11.
+
+Theorem C01_rejects_te_not_chunked_request : forall r v,
+  get_all TRANSFER_ENCODING (rq_headers r) = [v] -> in_set (norm (lower v)) (firstn 4 SET) = false ->
+  validate_headers (MReq r) <> Ok tt.
+Proof. exact rejects_te_not_chunked_request. Qed.
+Print Assumptions C01_rejects_te_not_chunked_request.
+
+Theorem C01_rejects_invalid_name : forall m n v,
+  In (n, v) (msg_headers m) -> existsb (byte_eqb LF) n = false -> is_token n = false -> validate_headers m <> Ok tt.
+Proof. exact rejects_invalid_name. Qed.
+Print Assumptions C01_rejects_invalid_name.
+
+(* with fixes/C01-reject-cr-lf-nul-in-header-values.diff: bare CR, obs-fold (CR LF SP) and NUL never pass *)
+Theorem C01_rejects_cr_lf_nul_value : forall m n v c,
+  In (n, v) (msg_headers m) -> In c v -> (c = x0d \/ c = x0a \/ c = x00) -> validate_headers m <> Ok tt.
+Proof. exact rejects_cr_lf_nul_value. Qed.
+Print Assumptions C01_rejects_cr_lf_nul_value.
+
+(* End to end, one forwarded request.  Full statement: forwarded_reads_as_recorded o r chunks for every head the
+   parser and validation accept.  It is FALSE of the faithful model: *)
+Theorem C01_end_to_end_refuted :
+  exists lines r cmds, read_request_head any_url lines = Ok r /\ validate_headers (MReq r) = Ok tt
+    /\ forward_request r [] = Ok cmds
+    /\ forall o, o = strict \/ o = lenient -> parse_request o (sent_bytes cmds) <> POk (recorded_request r [], []).
+Proof. exact end_to_end_refuted. Qed.
+Print Assumptions C01_end_to_end_refuted.
+
+(* further witnesses of the same kind (known findings): control character in the target; on the response side a
+   bare CR in the reason phrase and a status code that is not three digits *)
+Theorem C01_lexical_refuted :
+  refutes ctl_target_lines strict = true /\ refutes nontoken_lines lenient = true
+  /\ resp_refutes [ [x48;x54;x54;x50;x2f;x31;x2e;x31;x20;x32;x30;x30;x20;x61;x0d;x62]; [x43;x6f;x6e;x74;x65;x6e;x74;x2d;x4c;x65;x6e;x67;x74;x68;x3a;x20;x30] ] = true
+  /\ resp_refutes [ [x48;x54;x54;x50;x2f;x31;x2e;x31;x20;x31;x30;x30;x30;x20;x4f;x4b]; [x43;x6f;x6e;x74;x65;x6e;x74;x2d;x4c;x65;x6e;x67;x74;x68;x3a;x20;x30] ] = true.
+Proof. exact lexical_refuted. Qed.
+Print Assumptions C01_lexical_refuted.
+
+(* ... and it HOLDS under the guard that is the complement of those findings: the start line is lexically valid
+   and the fields satisfy the invariant validation establishes (Inv_req), and the send-side framing decision and
+   the reference decision name the same framing for the body (framing_matches; C01_framing_agree_request for
+   received heads).  Quantified over every recipient option, every chunking, and whatever follows on the wire. *)
+Theorem C01_end_to_end_partial : forall o r chunks,
+  Inv_req r -> framing_matches r chunks -> forwarded_reads_as_recorded o r chunks.
+Proof. exact forwarded_reads_as_recorded_partial. Qed.
+Print Assumptions C01_end_to_end_partial.
+
+Theorem C01_nonvacuous :
+  validate_headers (MReq sample_req) = Ok tt /\ Inv_req sample_req /\ framing_matches sample_req sample_chunks
+  /\ exists cmds, forward_request sample_req sample_chunks = Ok cmds
+       /\ parse_request strict (sent_bytes cmds) = POk (recorded_request sample_req [x61;x62;x63], []).
+Proof. exact sample_nonvacuous. Qed.
+Print Assumptions C01_nonvacuous.
